@@ -86,6 +86,7 @@ class Engine:
         self.prove_timeout_ms = prove_timeout_ms
         self.max_paths = max_paths
         self.deadline = deadline
+        self.numeric_first = 0
         self.stats = dict(paths=0, aborted=0, forks=0, queries=0, sat=0, unsat=0,
                           unknown=0, solver_s=0.0, obligations=0, discharged=0,
                           nontrivial_paths=0, violations=0)
@@ -302,8 +303,17 @@ class Engine:
             self.stats["discharged"] += 1
             st[1] += 1
             return
+        if self.numeric_first:
+            w = self._numeric_witness(c, tries=self.numeric_first)
+            if w is not None:
+                self.stats["witnesses"] = self.stats.get("witnesses", 0) + 1
+                self._latch(Violation(label, w, detail() if callable(detail) else detail, key))
         r = self.check(z3.Not(c))
         if r == z3.unknown:
+            w = self._numeric_witness(c, tries=60)
+            if w is not None:
+                self.stats["witnesses"] = self.stats.get("witnesses", 0) + 1
+                self._latch(Violation(label, w, detail() if callable(detail) else detail, key))
             r, model = self._decide_nlsat(z3.Not(c))
         else:
             model = self.solver.model() if r == z3.sat else None
@@ -313,7 +323,88 @@ class Engine:
             return
         if r == z3.sat:
             self._violation(label, model, key, detail)
+        w = self._numeric_witness(c)
+        if w is not None:
+            self.stats["witnesses"] = self.stats.get("witnesses", 0) + 1
+            self._latch(Violation(label, w, detail() if callable(detail) else detail, key))
         self._latch(Inconclusive("solver unknown proving '%s'" % label))
+
+    def _numeric_witness(self, goal, tries=300, tol=1e-6):
+        """solver said unknown: look for concrete values that satisfy the path condition and falsify the
+        goal, evaluating the uninterpreted functions with their true meaning.  A witness is only a
+        *candidate* (it must still reproduce on the real code); no witness never means 'holds'."""
+        import math
+        import os
+        import random
+        from . import numeval
+        rnd = random.Random(int(os.environ.get("VERIF_SEED", "0")) + 17)
+        cons = list(self.solver.assertions())
+        fv = numeval.free_vars(cons + [goal])
+        hints = {}
+        for c in cons:  # simple bounds x > 0, x >= k, x <= k on constants
+            try:
+                if z3.is_app(c) and c.num_args() == 2 and z3.is_const(c.arg(0)) and c.arg(0).decl().kind() == z3.Z3_OP_UNINTERPRETED:
+                    nm = c.arg(0).decl().name()
+                    k = c.decl().kind()
+                    if z3.is_int_value(c.arg(1)) or z3.is_rational_value(c.arg(1)):
+                        v = float(c.arg(1).as_fraction())
+                        h = hints.setdefault(nm, [None, None])
+                        if k in (z3.Z3_OP_GT, z3.Z3_OP_GE):
+                            h[0] = v if h[0] is None else max(h[0], v)
+                        if k in (z3.Z3_OP_LT, z3.Z3_OP_LE):
+                            h[1] = v if h[1] is None else min(h[1], v)
+            except Exception:
+                pass
+        base = {}
+        if any(srt != z3.RealSort() for srt in fv.values()):
+            # integers / booleans (structure) come from a model of the path condition; reals are sampled
+            self.solver.push()
+            try:
+                self.solver.set("timeout", 2000)
+                if self.solver.check() == z3.sat:
+                    m = self.solver.model()
+                    for name, srt in fv.items():
+                        if srt != z3.RealSort():
+                            v = m.eval(z3.Const(name, srt), model_completion=True)
+                            base[name] = v.as_long() if srt == z3.IntSort() else z3.is_true(v)
+            except z3.Z3Exception:
+                pass
+            finally:
+                self.solver.set("timeout", self.timeout_ms)
+                self.solver.pop()
+        for _ in range(tries):
+            env = dict(base)
+            for name, sort in fv.items():
+                if name in base:
+                    continue
+                lo, hi = hints.get(name, [None, None])
+                if sort == z3.RealSort():
+                    if lo is not None and lo >= 0 and hi is None:
+                        env[name] = lo + 10 ** rnd.uniform(-1.5, 1.0)
+                    elif lo is not None and hi is not None:
+                        env[name] = rnd.uniform(lo, hi)
+                    else:
+                        env[name] = rnd.uniform(-2.0, 2.0)
+                elif sort == z3.IntSort():
+                    env[name] = rnd.randint(int(lo) if lo is not None else -3, int(hi) if hi is not None else 6)
+                else:
+                    env[name] = rnd.random() < 0.5
+            try:
+                cache = {}
+                if not all(numeval.evaluate(c, env, cache) for c in cons):
+                    continue
+                if z3.is_eq(goal) and goal.arg(0).sort() == z3.RealSort():
+                    a, b = [numeval.evaluate(x, env, cache) for x in goal.children()]
+                    if math.isnan(a) or math.isnan(b) or math.isinf(a) or math.isinf(b):
+                        continue
+                    if abs(a - b) > tol * (1 + abs(a) + abs(b)):
+                        return {k: v for k, v in env.items() if k in self.symbols}
+                    continue
+                if not numeval.evaluate(goal, env, cache):
+                    return {k: v for k, v in env.items() if k in self.symbols}
+            except (ValueError, OverflowError, ZeroDivisionError, KeyError, NotImplementedError, TypeError):
+                continue
+        return None
 
     def _violation(self, label, model, key, detail):
         md = self.model_dict(model) if model is not None else {}
